@@ -122,9 +122,9 @@ func (c *caseGen) base(minJoin, maxJoin int) (*gen.G, *gen.Select) {
 
 // predicatePair wraps a list of equivalent predicate spellings into statements: the predicate
 // as a value in the select list, or as a WHERE conjunct.
-func (c *caseGen) predicateStatements(q *gen.Select, names, preds []string) []spelling {
+func (c *caseGen) predicateStatements(q *gen.Select, names, preds []string, selectListOnly bool) []spelling {
 	from, items, w := fromClause(q), refs(scopeCols(q)), exprSQL(q.Where)
-	inWhere := c.chance(2, "inwhere")
+	inWhere := c.chance(2, "inwhere") && !selectListOnly
 	if inWhere && reorderRegion(q) {
 		c.skip = idReorder
 	}
@@ -174,8 +174,16 @@ func (c *caseGen) inList() pair {
 	}
 	p := pair{kind: "in-list"}
 	var in, or, notIn, notOr, ne string
+	selectListOnly := false
 	if c.chance(5, "tuple") {
 		p.labels = append(p.labels, "tuple")
+		if kf.Listed(idHashTuple) {
+			// region of C06-hashin-tuple-null (while listed): a row-value IN list used as a filter is
+			// evaluated through a hash table that ignores NULL components; in the select list the
+			// plain comparison is used
+			selectListOnly = true
+			c.excl[idHashTuple]++
+		}
 		c1, c2 := w.cmpClass(), w.cmpClass()
 		if c1 == cDate || c1 == cDT {
 			c1 = cInt
@@ -214,9 +222,9 @@ func (c *caseGen) inList() pair {
 	}
 	if c.chance(3, "notin") {
 		p.labels = append(p.labels, "not-in")
-		p.sp = c.predicateStatements(q, []string{"NOT IN", "NOT (disjunction of =)", "conjunction of <>"}, []string{notIn, notOr, ne})
+		p.sp = c.predicateStatements(q, []string{"NOT IN", "NOT (disjunction of =)", "conjunction of <>"}, []string{notIn, notOr, ne}, selectListOnly)
 	} else {
-		p.sp = c.predicateStatements(q, []string{"IN", "disjunction of ="}, []string{in, or})
+		p.sp = c.predicateStatements(q, []string{"IN", "disjunction of ="}, []string{in, or}, selectListOnly)
 	}
 	return p
 }
@@ -232,9 +240,9 @@ func (c *caseGen) between() pair {
 	if c.chance(3, "notbetween") {
 		p.labels = append(p.labels, "not-between")
 		p.sp = c.predicateStatements(q, []string{"NOT BETWEEN", "NOT (pair of comparisons)", "x < a OR x > b"},
-			[]string{"(" + x + " NOT BETWEEN " + a + " AND " + b + ")", "(NOT " + pos + ")", "((" + x + " < " + a + ") OR (" + x + " > " + b + "))"})
+			[]string{"(" + x + " NOT BETWEEN " + a + " AND " + b + ")", "(NOT " + pos + ")", "((" + x + " < " + a + ") OR (" + x + " > " + b + "))"}, false)
 	} else {
-		p.sp = c.predicateStatements(q, []string{"BETWEEN", "pair of comparisons"}, []string{"(" + x + " BETWEEN " + a + " AND " + b + ")", pos})
+		p.sp = c.predicateStatements(q, []string{"BETWEEN", "pair of comparisons"}, []string{"(" + x + " BETWEEN " + a + " AND " + b + ")", pos}, false)
 	}
 	return p
 }
